@@ -107,6 +107,8 @@ var reg = vk.Registry{
 	},
 }
 
+func init() { reg["sequence"] = vk.SequenceReplayer(reg) }
+
 func TestReplay(t *testing.T) { vk.RunReplay(t, reg) }
 
 func evalTuple(t vk.TB, tu Tuple) {
@@ -116,7 +118,7 @@ func evalTuple(t vk.TB, tu Tuple) {
 		rec.Class("tuple_top_bit_set")
 	}
 	rec.Sample("tuple", tu)
-	rec.Report(t, "tuple", checkTuple(tu))
+	rec.ReportSeq(t, "tuple", tu, func() *vk.Violation { return checkTuple(tu) })
 	// the composed id also goes through the id-side checks
 	rec.Eval()
 	rec.Report(t, "id", checkID(ID{refCompose(tu)}))
@@ -205,6 +207,6 @@ func TestRandom(t *testing.T) {
 		u := rapid.Uint64().Draw(t, "id")
 		rec.Eval()
 		rec.NonTrivial("id", u)
-		rec.Report(t, "id", checkID(ID{u}))
+		rec.ReportSeq(t, "id", ID{u}, func() *vk.Violation { return checkID(ID{u}) })
 	})
 }
